@@ -17,6 +17,7 @@
 -/
 import W2c2Verif.Spec.Wasm
 import W2c2Verif.Model.EmitNumeric
+import W2c2Verif.Gen.AtomicEmit
 
 namespace W2c2Verif.Model
 open W2c2Verif Gen
@@ -41,6 +42,10 @@ inductive EInstr
   | ite (bt : Option VT) (thn : List EInstr) (els : Option (List EInstr))
   | br (l : Nat) | brIf (l : Nat) | brTable (ls : List Nat) (d : Nat) | ret
   | call (f : Nat) | callIndirect (ty : Nat) (table : Nat)
+  /-- threads proposal: atomic load / store / read-modify-write / compare-exchange, fence, notify, wait32/wait64 -/
+  | atomicLoad (opcode : String) (offset : Nat) | atomicStore (opcode : String) (offset : Nat)
+  | atomicRmw (opcode : String) (offset : Nat) | atomicCmpxchg (opcode : String) (offset : Nat)
+  | atomicFence | atomicNotify (offset : Nat) | atomicWait (is64 : Bool) (offset : Nat)
   deriving Repr, Inhabited
 
 /-- target statements (one constructor per emitter shape) -/
@@ -68,6 +73,12 @@ inductive MStmtC
   | loop (L : Nat) (body : List MStmtC)                     -- `L:; {body}`
   | ifElse (c : Slot) (thn : List MStmtC) (els : Option (List MStmtC)) (L : Nat)
   | unreachable
+  /-- `[dst =] fn(mem, (U64)addr+offU, args…);` — atomic load (no operand), store (one, no result), read-modify-write (one),
+      compare-exchange (two) -/
+  | rmw (dst : Option Slot) (fn : String) (addr : Slot) (off : Nat) (args : List Slot)
+  | fence                                                   -- `atomic_fence();`
+  | notify (dst : Slot) (addr : Slot) (off : Nat) (count : Slot)          -- `dst = wasmMemoryAtomicNotify(mem, addr+offU, count);`
+  | wait (dst : Slot) (addr : Slot) (off : Nat) (expected timeout : Slot) (is64 : Bool)
   deriving Repr, Inhabited
 
 structure Label where
@@ -134,6 +145,19 @@ def St.endBlock (sB : St) (h : Nat) (bt : Option VT) (labels : List Label) : St 
   | none => s'
 
 abbrev Err := String
+
+def vtOfName : String → Option VT | "i32" => some .i32 | "i64" => some .i64 | "f32" => some .f32 | "f64" => some .f64 | _ => none
+
+/-- the emitter ("load" / "store" / "rmw" / "cmpxchg"), runtime function and result type the translator dispatches an atomic
+    opcode to (`Gen.atomicEmit`, regenerated from c.c) -/
+def atomicFn (opcode : String) : Option (String × String × Option VT) :=
+  (Gen.atomicEmit.find? fun r => r.2.2.1 == opcode).map fun r => (r.2.1, r.2.2.2.1, vtOfName r.2.2.2.2.2)
+
+/-- … restricted to one emitter -/
+def atomicFnK (kind opcode : String) : Option (String × Option VT) :=
+  match atomicFn opcode with
+  | some (k, fn, rt) => if k = kind then some (fn, rt) else none
+  | none => none
 
 /-- one `case` of the `switch` a br_table becomes -/
 def brTableStep (acc : Except Err (St × List (Option (Slot × Slot) × Nat))) (l : Nat) :
@@ -259,6 +283,47 @@ def compileInstr (ctx : Ctx) (s : St) : EInstr → Except Err (St × List MStmtC
     if s.height < s.base + 3 then .error "memory.init: pops below the enclosing label (invalid module)" else
     .ok (s.drop 3, [.memInit seg s2 s1 s0], false)
   | .dataDrop _ => .ok (s, [], false)          -- decoded and reported as unimplemented; nothing emitted
+  | .atomicLoad opcode off => do
+    let some (fn, some rt) := atomicFnK "load" opcode | .error s!"unsupported atomic load {opcode}"
+    let some s0 := s.top 0 | .error "atomic load: stack"
+    if s.height < s.base + 1 then .error "atomic load: pops below the enclosing label (invalid module)" else
+    let dst : Slot := ⟨rt, s0.idx⟩
+    .ok (((s.declare dst).drop 1).push rt, [.rmw (some dst) fn s0 off []], false)
+  | .atomicStore opcode off => do
+    let some (fn, none) := atomicFnK "store" opcode | .error s!"unsupported atomic store {opcode}"
+    let some s0 := s.top 0 | .error "atomic store: stack"
+    let some s1 := s.top 1 | .error "atomic store: stack"
+    if s.height < s.base + 2 then .error "atomic store: pops below the enclosing label (invalid module)" else
+    .ok (s.drop 2, [.rmw none fn s1 off [s0]], false)
+  | .atomicRmw opcode off => do
+    let some (fn, some rt) := atomicFnK "rmw" opcode | .error s!"unsupported atomic rmw {opcode}"
+    let some s0 := s.top 0 | .error "atomic rmw: stack"
+    let some s1 := s.top 1 | .error "atomic rmw: stack"
+    if s.height < s.base + 2 then .error "atomic rmw: pops below the enclosing label (invalid module)" else
+    let dst : Slot := ⟨rt, s1.idx⟩
+    .ok (((s.declare dst).drop 2).push rt, [.rmw (some dst) fn s1 off [s0]], false)
+  | .atomicCmpxchg opcode off => do
+    let some (fn, some rt) := atomicFnK "cmpxchg" opcode | .error s!"unsupported atomic cmpxchg {opcode}"
+    let some s0 := s.top 0 | .error "atomic cmpxchg: stack"
+    let some s1 := s.top 1 | .error "atomic cmpxchg: stack"
+    let some s2 := s.top 2 | .error "atomic cmpxchg: stack"
+    if s.height < s.base + 3 then .error "atomic cmpxchg: pops below the enclosing label (invalid module)" else
+    let dst : Slot := ⟨rt, s2.idx⟩
+    .ok (((s.declare dst).drop 3).push rt, [.rmw (some dst) fn s2 off [s1, s0]], false)
+  | .atomicFence => .ok (s, [.fence], false)
+  | .atomicNotify off => do
+    let some s0 := s.top 0 | .error "atomic notify: stack"
+    let some s1 := s.top 1 | .error "atomic notify: stack"
+    if s.height < s.base + 2 then .error "atomic notify: pops below the enclosing label (invalid module)" else
+    let dst : Slot := ⟨.i32, s1.idx⟩
+    .ok (((s.declare dst).drop 2).push .i32, [.notify dst s1 off s0], false)
+  | .atomicWait is64 off => do
+    let some s0 := s.top 0 | .error "atomic wait: stack"
+    let some s1 := s.top 1 | .error "atomic wait: stack"
+    let some s2 := s.top 2 | .error "atomic wait: stack"
+    if s.height < s.base + 3 then .error "atomic wait: pops below the enclosing label (invalid module)" else
+    let dst : Slot := ⟨.i32, s2.idx⟩
+    .ok (((s.declare dst).drop 3).push .i32, [.wait dst s2 off s1 s0 is64], false)
   | .block bt body => do
     let h := s.height
     let lab : Label := ⟨s.next, h, bt⟩
